@@ -68,7 +68,9 @@ fn trade<K: Clone>(f: &Fill, idx: usize, instrument: K) -> Trade<QuoteAsset, K> 
         order_id: OrderId::new(format!("o{}", f.id)),
         instrument,
         strategy: StrategyId::new("s"),
-        time_exchange: t(idx as i64 * 1000 + 1000),
+        // fills are increments, not snapshots: they count whatever their exchange time says. Fills of two orders
+        // are routinely reported slightly out of order, so every fourth fill is stamped 2.5 s in the past
+        time_exchange: t(idx as i64 * 1000 + 100_000 - if f.id % 4 == 1 { 2_500 } else { 0 }),
         side: f.side(),
         price: p,
         quantity: q,
@@ -179,7 +181,7 @@ fn run_sequence(fills: &[Fill], with_engine: bool, want_obs: bool) -> Result<Out
             // a market event for the instrument before the fill: never touches the position's bookkeeping
             // (only its unrealised estimate), whether or not it carries a price
             let (pf, _, _) = f.dec();
-            let t_ms = idx as i64 * 1000 + 500;
+            let t_ms = idx as i64 * 1000 + 99_500;
             let pre: Option<(&'static str, EngineEvent)> = match f.id % 7 {
                 0 => Some(("l1_without_levels", fixtures::ev_market_l1(ExchangeId::BinanceSpot, 1, t_ms, None, None))),
                 1 => Some(("liquidation", market_kind(1, t_ms, DataKind::Liquidation(Liquidation { side: Side::Sell, price: 1.0, quantity: 1.0, time: t(t_ms) })))),
